@@ -500,6 +500,11 @@ def unguarded_paths(t, leaf_pred, node_pred, _memo=None):
             if c[0] == "not" and a == c[1]:
                 stack.append(b)
                 continue
+            # `v if v is None else f(v)` in normal form: phi(v is not None ? f(v) : v)
+            nn = [c] if c[0] == "cmp" else (list(c[2]) if c[0] == "bool" and c[1] == "and" else [])
+            if any(y[0] == "cmp" and y[1] == "IsNot" and y[3] == ("const", None) and y[2] == b for y in nn):
+                stack.append(a)
+                continue
         stack.extend(children_data(x))
     return out
 
@@ -548,9 +553,29 @@ def is_param(name):
     return lambda x: x == ("param", name)
 
 
+REGEX_FNS = ("match", "search", "fullmatch", "sub", "subn", "split", "findall", "finditer")
+
+
+def regex_op(x):
+    """(pattern global, function name, argument terms after the pattern) of a regex operation on a
+    module-level pattern, whatever its spelling: PATTERN.fn(...), re.fn(PATTERN, ...)."""
+    if x[0] == "call":
+        head, _, fn = x[1].rpartition(".")
+        if fn in REGEX_FNS and head.startswith("ural."):
+            return head, fn, x[2]
+        if head == "re" and fn in REGEX_FNS and x[2] and x[2][0][0] == "global":
+            return x[2][0][1], fn, x[2][1:]
+    if x[0] == "method" and x[1] in REGEX_FNS and x[2][0] == "global":
+        return x[2][1], x[1], x[3]
+    return None
+
+
 def is_regex_sub(global_name, repl=""):
     """pattern.sub(repl, X) or re.sub(pattern, repl, X) with the named module-level pattern."""
     def pred(x):
+        op = regex_op(x)
+        if op is not None and op[1] == "sub" and op[0] == global_name:
+            return len(op[2]) >= 1 and (repl is None or op[2][0] == ("const", repl))
         if x[0] == "method" and x[1] == "sub" and x[2] == ("global", global_name):
             return len(x[3]) >= 1 and (repl is None or x[3][0] == ("const", repl))
         if x[0] == "call" and x[1] == "re.sub" and len(x[2]) >= 2 and x[2][0] == ("global", global_name):
@@ -559,3 +584,79 @@ def is_regex_sub(global_name, repl=""):
             return repl is None or x[2][0] == ("const", repl)
         return False
     return pred
+
+
+# ----------------------------------------------------------------------
+# decision structure of a term (refactoring-proof reading of control flow)
+# ----------------------------------------------------------------------
+def atomic_conditions(t):
+    """Atomic tests deciding the phi nodes of a term (negations / and / or flattened)."""
+    out = []
+    seen = set()
+
+    def atoms(c):
+        if c[0] == "not":
+            atoms(c[1])
+        elif c[0] == "bool":
+            for x in c[2]:
+                atoms(x)
+        elif c not in seen:
+            seen.add(c)
+            out.append(c)
+
+    for x in P.subterms(t):
+        if x[0] == "phi":
+            atoms(x[1])
+    return out
+
+
+def resolve_under(t, valuation):
+    """Resolve the phi nodes of `t` under `valuation(atom) -> True/False/None`; phi nodes whose
+    condition stays undecided are kept."""
+    def tv(c):
+        if c[0] == "not":
+            v = tv(c[1])
+            return None if v is None else (not v)
+        if c[0] == "bool":
+            vals = [tv(x) for x in c[2]]
+            if c[1] == "and":
+                if any(v is False for v in vals):
+                    return False
+                return True if all(v is True for v in vals) else None
+            if any(v is True for v in vals):
+                return True
+            return False if all(v is False for v in vals) else None
+        if c[0] == "const":
+            return bool(c[1])
+        return valuation(c)
+
+    def go(x):
+        while x[0] == "phi":
+            v = tv(x[1])
+            if v is None:
+                return ("phi", x[1], go(x[2]), go(x[3]))
+            x = x[2] if v else x[3]
+        return x
+    return go(t)
+
+
+def opaque_uses(t, leaf, allowed_parent):
+    """Occurrences of `leaf` in the data positions of `t` whose parent node is not accepted by
+    allowed_parent(parent, leaf): the value is inspected or cut instead of being passed along whole."""
+    bad = []
+    seen = set()
+    stack = [(t, None)]
+    while stack:
+        x, parent = stack.pop()
+        if not isinstance(x, tuple) or not x:
+            continue
+        if x == leaf:
+            if parent is not None and not allowed_parent(parent, leaf):
+                bad.append(parent)
+            continue
+        if id(x) in seen:
+            continue
+        seen.add(id(x))
+        for ch in children_data(x):
+            stack.append((ch, x))
+    return bad
